@@ -183,5 +183,128 @@ theorem run11_ok : ∃ out, tuckerAlsRun realOps svc1 (fun _ _ _ => []) X11 [1, 
       svc1, allSubs11, List.range_succ, Mat.get, Dense.get, sub2ind, mkTtensor, bind, Except.bind, pure, Except.pure,
       List.foldlM] at h
 
+/-! ### determinacy beyond extent one: the Gram matrix of the unfolding of `[[3], [4]]` -/
+
+/-- the Gram matrix of the unfolding of the `2 × 1` array `[[3], [4]]` -/
+def Z34 : Mat ℝ := [[9, 12], [12, 16]]
+
+theorem z34_get : Z34.get 0 0 = 9 ∧ Z34.get 0 1 = 12 ∧ Z34.get 1 0 = 12 ∧ Z34.get 1 1 = 16 := by
+  simp [Z34, Mat.get]
+
+noncomputable def A34 : Mat ℝ := [[3/5], [4/5]]
+
+theorem a34_get : A34.get 0 0 = 3/5 ∧ A34.get 1 0 = 4/5 := by simp [A34, Mat.get]
+
+theorem leadSpec_34 : LeadSpec Z34 2 1 A34 := by
+  obtain ⟨z00, z01, z10, z11⟩ := z34_get
+  obtain ⟨a0, a1⟩ := a34_get
+  refine ⟨rfl, by simp [A34], ?_, ⟨fun _ => 25, ?_, ?_, ?_⟩, ?_⟩
+  · intro i hi j hj
+    have : i = 0 := by omega
+    have : j = 0 := by omega
+    subst_vars
+    simp only [Finset.sum_range_succ, Finset.sum_range_zero, a0, a1]
+    norm_num
+  · intro i hi a ha
+    have : i = 0 := by omega
+    subst this
+    have : a = 0 ∨ a = 1 := by omega
+    rcases this with rfl | rfl <;> simp only [Finset.sum_range_succ, Finset.sum_range_zero, z00, z01, z10, z11, a0, a1] <;> norm_num
+  · intro i j _ _; exact le_rfl
+  · intro v ν hv hev horth i hi
+    have h0 := hev 0 (by omega)
+    have h1 := hev 1 (by omega)
+    have ho := horth 0 (by omega)
+    simp only [Finset.sum_range_succ, Finset.sum_range_zero, z00, z01, z10, z11, a0, a1] at h0 h1 ho
+    -- 3 v0 + 4 v1 = 0, so Z v = 0 = ν v with v ≠ 0: ν = 0
+    have hs : 3 * v 0 + 4 * v 1 = 0 := by linarith
+    have e0 : ν * v 0 = 0 := by linarith
+    have e1 : ν * v 1 = 0 := by linarith
+    obtain ⟨a, ha, hva⟩ := hv
+    have : a = 0 ∨ a = 1 := by omega
+    have hν : ν = 0 := by
+      rcases this with rfl | rfl
+      · rcases mul_eq_zero.1 e0 with h | h
+        · exact h
+        · exact absurd h hva
+      · rcases mul_eq_zero.1 e1 with h | h
+        · exact h
+        · exact absurd h hva
+    rw [hν]; norm_num
+  · intro i hi
+    have : i = 0 := by omega
+    subst this
+    refine ⟨1, by omega, fun b hb => ?_, by rw [a1]; norm_num⟩
+    have : b = 0 ∨ b = 1 := by omega
+    rcases this with rfl | rfl
+    · rw [a0, a1]; norm_num [abs_of_pos]
+    · exact le_rfl
+
+theorem leadSpec_34_unique {A : Mat ℝ} (h : LeadSpec Z34 2 1 A) : A = A34 := by
+  obtain ⟨z00, z01, z10, z11⟩ := z34_get
+  obtain ⟨hr, hc, ho, ⟨μ, he, _, hdom⟩, hs⟩ := h
+  match A, hr with
+  | [row0, row1], _ =>
+    have hl0 := hc row0 (by simp)
+    have hl1 := hc row1 (by simp)
+    match row0, hl0, row1, hl1 with
+    | [x], _, [y], _ =>
+      have g0 : Mat.get [[x], [y]] 0 0 = x := by simp [Mat.get]
+      have g1 : Mat.get [[x], [y]] 1 0 = y := by simp [Mat.get]
+      have hn := ho 0 (by omega) 0 (by omega)
+      have e0 := he 0 (by omega) 0 (by omega)
+      have e1 := he 0 (by omega) 1 (by omega)
+      simp only [Finset.sum_range_succ, Finset.sum_range_zero, z00, z01, z10, z11, g0, g1, if_true, zero_add] at hn e0 e1
+      -- s = 3x + 4y; (μ - 25) s = 0
+      have hμs : (μ 0 - 25) * (3 * x + 4 * y) = 0 := by ring_nf; nlinarith
+      have hs0 : 3 * x + 4 * y ≠ 0 := by
+        intro hs0
+        -- then (3, 4) is an eigenvector for 25 orthogonal to the column: 25 ≤ μ 0, but μ 0 · (x, y) = 0
+        have hd := hdom (fun a => if a = 0 then 3 else 4) 25 ⟨0, by omega, by norm_num⟩ (by
+          intro a ha
+          have : a = 0 ∨ a = 1 := by omega
+          rcases this with rfl | rfl <;>
+            simp only [Finset.sum_range_succ, Finset.sum_range_zero, z00, z01, z10, z11] <;> norm_num) (by
+          intro i hi
+          have : i = 0 := by omega
+          subst this
+          simp only [Finset.sum_range_succ, Finset.sum_range_zero, g0, g1]
+          norm_num
+          linarith) 0 (by omega)
+        have hx : μ 0 * x = 0 := by nlinarith
+        have hy : μ 0 * y = 0 := by nlinarith
+        have hμ : μ 0 ≠ 0 := by linarith
+        have hx0 : x = 0 := by rcases mul_eq_zero.1 hx with h | h; exact absurd h hμ; exact h
+        have hy0 : y = 0 := by rcases mul_eq_zero.1 hy with h | h; exact absurd h hμ; exact h
+        rw [hx0, hy0] at hn
+        norm_num at hn
+      have hμ : μ 0 = 25 := by
+        rcases mul_eq_zero.1 hμs with h | h
+        · linarith
+        · exact absurd h hs0
+      rw [hμ] at e0 e1
+      -- 25 x = 9 x + 12 y, 25 y = 12 x + 16 y: y = 4x/3
+      have hy : y = 4 / 3 * x := by linarith
+      rw [hy] at hn
+      have hx2 : x * x = 9 / 25 := by nlinarith
+      obtain ⟨a, ha, _, hpos⟩ := hs 0 (by omega)
+      have hxpos : 0 < x := by
+        have : a = 0 ∨ a = 1 := by omega
+        rcases this with rfl | rfl
+        · rwa [g0] at hpos
+        · rw [g1, hy] at hpos; linarith
+      have hx : x = 3 / 5 := by nlinarith
+      rw [hy, hx]
+      norm_num [A34]
+
+theorem leadSpec_34_existsUnique : ∃! A, LeadSpec Z34 2 1 A := ⟨A34, leadSpec_34, fun _ h => leadSpec_34_unique h⟩
+
+theorem allSubs_11' : allSubs [1, 1] = [[0, 0]] := by decide
+
+/-- `Z34` is the Gram matrix `tucker_als` hands to `nvecs` for mode 0 of the `2 × 1` array `[[3], [4]]` -/
+theorem gramMode_34 : gramMode ⟨[2, 1], [3, 4]⟩ 0 = Z34 := by
+  simp [gramMode, Z34, allSubs_11', List.range_succ, Dense.get, sub2ind]
+  norm_num
+
 end Tk
 end Pyttb
